@@ -273,6 +273,46 @@ def _is_counter_field(facts, adt_def, name):
     return False
 
 
+def _state_variants(cb):
+    adt = cb.facts.adt(cb.circuit_adt)
+    crate = [c_ for c_ in cb.facts.crates.values() if cb.circuit_adt in c_.adts]
+    for f in (adt["variants"][0]["fields"] if adt else []):
+        if f["name"] == cb.state_field and crate:
+            d = crate[0].types[f["ty"]].get("def")
+            sa = cb.facts.adt(d) if d else None
+            if sa is not None:
+                return {v["name"] for v in sa["variants"]}
+    return {"Closed", "Open", "HalfOpen"}
+
+
+def states_possible(cb, body, bb):
+    """the states the breaker can be in at block bb, from the tests of the state field on the dominating edges:
+    `state == V` / a `match` arm V (only V), `state != V` (not V; `s != Open && s != HalfOpen` leaves Closed)"""
+    tr = cb.tr
+    poss = set(_state_variants(cb))
+
+    def variant_of(side):
+        for x in tr.walk(side, limit=20):
+            if x[0] == "agg" and tr.agg_of(x)[1].get("variant"):
+                return tr.agg_of(x)[1].get("variant")
+            if x[0] == "const":
+                for v in poss | {"Closed", "Open", "HalfOpen"}:
+                    if str(x[1]).endswith(v) or ("::" + v) in str(x[1]):
+                        return v
+        return None
+    allv = set(poss)
+    for e in dominating_edges(tr, body, bb):
+        if e["kind"] == "bool":
+            cm = cmp_on_edge(tr, e)
+            if cm and cm[0] in ("Eq", "Ne") and (mentions_field(tr, cm[1], cb.state_field) or mentions_field(tr, cm[2], cb.state_field)):
+                v = variant_of(cm[2]) if mentions_field(tr, cm[1], cb.state_field) else variant_of(cm[1])
+                if v in allv:
+                    poss = poss & {v} if cm[0] == "Eq" else poss - {v}
+        elif e["kind"] == "enum" and e["label"] in allv and mentions_field(tr, e["node"], cb.state_field):
+            poss &= {e["label"]}
+    return poss
+
+
 def check_no_evict_in_half_open(cb, rep, rule):
     """the counter the half-open closing decision reads must not be decremented while half-open"""
     facts, tr = cb.facts, cb.tr
@@ -298,17 +338,7 @@ def check_no_evict_in_half_open(cb, rep, rule):
                 continue
             ndec += 1
             rep.saw(b_)
-            okc = False
-            for e in dominating_edges(tr, b_, i):
-                if e["kind"] == "bool" and e["label"] == "true":
-                    cm = normalise_cmp(tr, e["node"])
-                    if cm and cm[0] == "Eq" and (mentions_field(tr, cm[1], cb.state_field) or mentions_field(tr, cm[2], cb.state_field)):
-                        for side in (cm[1], cm[2]):
-                            if any(x[0] == "agg" and tr.agg_of(x)[1].get("variant") == "Closed" for x in tr.walk(side, limit=20)) or \
-                               any(x[0] == "const" and "Closed" in str(x[1]) for x in tr.walk(side, limit=20)):
-                                okc = True
-                if e["kind"] == "enum" and e["label"] == "Closed" and mentions_field(tr, e["node"], cb.state_field):
-                    okc = True
+            okc = states_possible(cb, b_, i) == {"Closed"}
             rep.ob(rule, skey(b_, "decrement.%s" % f), okc, where(b_, i, j),
                    "%s (read by the closing decision) is decremented only while the breaker is Closed" % f if okc else
                    "%s, which the half-open closing decision compares with permitted_calls_in_half_open, can be decremented while half-open "
